@@ -174,7 +174,8 @@ def gen_realbias(r, c):
                "alb": ["centers 1.0", "updateFrequency 4"]}
     if kind in generic:
         # the force is read from the bias object itself (its physics belongs to other properties); what is checked is its routing
-        c["biases"] = [{"kw": kind, "k": 0.0, "user": None, "generic": True, "body": generic[kind]}]
+        tb = r.choice([1, 1, 2, 3]) if kind not in ("abf",) else 1
+        c["biases"] = [{"kw": kind, "k": 0.0, "user": None, "generic": True, "tsf": tb, "body": generic[kind] + (["timeStepFactor %d" % tb] if tb > 1 else [])}]
         c["lower"], c["upper"] = 0.0, 2.0
         x = V.dyadic(r, 0.5, 1.5, bits=6)
         ev = []
@@ -198,6 +199,9 @@ def gen_realbias(r, c):
         b["user"] = r.choice([None, None, True, False, False])
         if b["user"] is not None:
             b["body"].append("bypassExtendedLagrangian %s" % ("on" if b["user"] else "off"))
+    b["tsf"] = r.choice([1, 1, 2, 3])
+    if b["tsf"] > 1:
+        b["body"].append("timeStepFactor %d" % b["tsf"])      # the bias sleeps between its steps and applies its force times the factor
     c["biases"] = [b]
     x = V.dyadic(r, 0.5, 1.5, bits=6)
     ev = []
@@ -230,7 +234,7 @@ def fill_real_forces(c, recs, table):
     b = c["biases"][0]
     ent = table.get(b["kw"].lower(), (0, 0))
     bypass = bool(ent[1]) if b["user"] is None else (b["user"] and bool(ent[0]))
-    for e, rec in zip(c["events"], recs):
+    for (j_, it_, aw_), e, rec in zip(awake_steps(c), c["events"], recs):
         if rec is None:
             return False
         bf = [t_ for t_ in rec.get("bf", []) if t_[0] == b["kw"].lower()]
@@ -240,7 +244,7 @@ def fill_real_forces(c, recs, table):
         if b.get("generic"):
             F = bf[0][1]
         else:
-            F = bias_force(c, b, bypass, rec["x_rep"], e["x"])
+            F = b.get("tsf", 1) * bias_force(c, b, bypass, rec["x_rep"], e["x"]) if it_ % b.get("tsf", 1) == 0 else 0.0
             if not close(F, bf[0][1]):
                 c["bf_problem"] = "documented force %r on the value the bias must see, the bias computed %r" % (F, bf[0][1])
                 return False
@@ -1030,6 +1034,8 @@ def check(run):
             ok_, recs_ = impl.get(tag, (False, []))
             if ok_ and len(recs_) == len(c["events"]) and fill_real_forces(c, recs_, table):
                 jobs[n_] = (tag, c, L, model_line(c), fe)
+                if c["biases"][0].get("tsf", 1) > 1:
+                    run.dist("real-bias with its own timeStepFactor (sleeps between its steps)")
                 run.dist("real-bias:%s:%s%s" % (c["biases"][0]["kw"], "bypass" if c["bypass"] else "on-coordinate", "" if c["nonzero_bias_force"] else ":zero-force"))
             elif c.get("bf_problem"):
                 run.violation("routing:bias-flag-or-force", "bias %s on an extended variable: %s" % (c["biases"][0]["kw"], c["bf_problem"]), {"kind": "scenario", "scenario": L})
